@@ -346,8 +346,12 @@ impl<T: MessageType> MessageEncoder<T> {
         conn_type: ConnectionType,
         config: &ServiceConfig,
     ) -> io::Result<()> {
+        // a 204 response never carries a body, whatever size the body type reports
+        // (a 304 keeps sending a body the handler supplies: `not_modified_spec_h1` relies on it)
+        let no_content = message.status() == Some(StatusCode::NO_CONTENT);
+
         // transfer encoding
-        if !head {
+        if !head && !no_content {
             self.te = match length {
                 BodySize::Sized(0) => TransferEncoding::empty(),
                 BodySize::Sized(len) => TransferEncoding::length(len),
